@@ -132,8 +132,32 @@ def check_ir(g, ir, props=None, others=(), light=False):
                 r = ir.get_by_uuid(x.uuid)
                 if r is x:
                     bad("C03/clone:returns-node-of-another-ir", str(x.uuid))
+    # ---------------------------------------------------------------- C19
+    for b in t["intervals"]:
+        if b.initialized_size != len(b.contents):
+            bad("C19/clone:initialized_size", "")
+        data = bytes(b.contents)
+        for k in b.blocks:
+            want_addr = None if b.address is None else b.address + k.offset
+            if k.address != want_addr:
+                bad("C19/clone:block-address",
+                    "block.address %r, interval address + offset %r"
+                    % (k.address, want_addr))
+            if bytes(k.contents) != data[k.offset:k.offset + k.size]:
+                bad("C19/clone:block-contents", "")
+            for off in (k.offset - 1, k.offset, k.offset + k.size - 1,
+                        k.offset + k.size):
+                inside = k.offset <= off < k.offset + k.size
+                if bool(k.contains_offset(off)) != inside:
+                    bad("C19/clone:contains_offset", "offset %d" % off)
+                if b.address is not None and bool(
+                        k.contains_address(b.address + off)) != inside:
+                    bad("C19/clone:contains_address", "offset %d" % off)
     if not in_extent(t):
         return out
+    # (the interval that LISTS the block, whatever the block's own
+    # back-pointer says: C04 judges the back-pointer)
+    owner = {id(k): b for b in t["intervals"] for k in b.blocks}
     # ---------------------------------------------------- C05 / C12 blocks
     scopes = []
     for b in t["intervals"]:
@@ -147,8 +171,8 @@ def check_ir(g, ir, props=None, others=(), light=False):
     scopes.append((ir, t["blocks"], "IR"))
     pts = []
     for k in t["blocks"]:
-        if k.byte_interval.address is not None:
-            a = k.byte_interval.address + k.offset
+        if owner[id(k)].address is not None:
+            a = owner[id(k)].address + k.offset
             pts += [a, a + k.size]
     qs = queries_for(pts, cap_b)
     for scope, blocks, nm in scopes:
@@ -158,11 +182,11 @@ def check_ir(g, ir, props=None, others=(), light=False):
                              ("data", g.DataBlock)):
                 pool = [k for k in blocks
                         if (cls is None or isinstance(k, cls))
-                        and k.byte_interval.address is not None]
+                        and owner[id(k)].address is not None]
                 on = [k for k in pool if hit_on(
-                    r, k.byte_interval.address + k.offset, k.size)]
+                    r, owner[id(k)].address + k.offset, k.size)]
                 at = [k for k in pool
-                      if (k.byte_interval.address + k.offset) in r]
+                      if (owner[id(k)].address + k.offset) in r]
                 if not same(getattr(scope, pre + "_blocks_on")(q), on):
                     bad("C05/clone:%s_blocks_on:%s" % (pre, nm),
                         "query %r" % (q,))
